@@ -338,6 +338,17 @@ func (bg *BodyGen) dynamic(it SpecItem, exprDepth, dynDepth int, content func() 
 		}
 		inner.Kids = append(inner.Kids, attrDef("iterator", V(iter)))
 	}
+	// now and then the collection is a root variable that has the very name of this block's iterator: for_each
+	// is evaluated outside the iterator's scope, so that variable is a genuine dependency
+	if coll.K == "var" && r.Chance(1, 5) {
+		if v, ok := g.Scope[coll.S]; ok {
+			if _, taken := g.Scope[iter]; !taken {
+				g.Scope[iter] = v
+				coll = V(iter)
+				inner.Kids[0] = attrDef("for_each", coll)
+			}
+		}
+	}
 	kty, vty := elemTypes(collTy)
 	g.locals = append(g.locals, local{iter, cty.Object(map[string]cty.Type{"key": kty, "value": vty})})
 	if it.LabelCount() > 0 {
